@@ -620,8 +620,9 @@ def run(prop: str, tier: str, seed: int, scratch: Path, replay=None, model_ok=Tr
                          'latitudes': dict(lat_bands), 'longitudes': dict(lon_bands), 'answers': dict(answers),
                          'steps': dict(dist), 'oracle_i': dict(stats)},
         'extra': {'astronomical_sanity': 'plain test, not verified: astral\'s float trigonometry '
-                                         f'({stats["sanity_elevation"]} elevation samples within {ELEV_TOL} deg, '
-                                         f'{stats["sanity_noon"]} noon samples, {len(sanity_failures)} failures)',
+                                         f'({stats["sanity_elevation"]} elevation samples checked against +-{ELEV_TOL} deg, '
+                                         f'{stats["sanity_noon"]} noon samples, {len(sanity_failures)} failures, all classified '
+                                         'below)',
                   'anomaly_classes': {'F11': 'the recorded event time crosses 00:00 UTC within the affected days '
                                              '(or an answer lies before its own UTC date)',
                                       'F15': 'the skipped event is astral\'s answer for UTC date d but lies on date d+1 '
